@@ -151,8 +151,18 @@ def build_prior(case):
                 pars[name] = var
         if case.get("pars_as") == "list":
             pars_in = list(pars.values())
+        elif case.get("pars_as") == "tuple":
+            pars_in = tuple(pars.values())
+        elif case.get("pars_as") == "model":
+            pars_in = None  # documented: the parameters are then taken from the model's named variables
+        elif case.get("pars_as") == "number":
+            pars_in = 42
         else:
             pars_in = pars
+        if case.get("offsets_as") == "number":
+            return tj.JokerPrior(pars=pars_in, poly_trend=pt_, v0_offsets=5, model=model)
+        if case.get("model_as") == "string":
+            return tj.JokerPrior(pars=pars_in, poly_trend=pt_, v0_offsets=v0_offsets, model="model")
         # the offsets are accepted as "an iterable of pymc variables": list, tuple, or a one-shot iterator / generator
         oa = case.get("offsets_as", "list")
         if oa == "tuple":
@@ -460,8 +470,15 @@ def valid_variations(pt_, no):
 def build_cases(quick):
     cases = []
     for (pt_, no) in ((1, 0), (2, 1), (3, 2)):
-        for pars_as in ("dict", "list"):
+        for pars_as in ("dict", "list", "tuple", "model"):
             cases.append(dict(kind="prior", poly_trend=pt_, n_offsets=no, mut=[], accept=True, pars_as=pars_as))
+        cases.append(dict(kind="prior", poly_trend=pt_, n_offsets=no, mut=[], accept=False, pars_as="number"))
+        cases.append(dict(kind="prior", poly_trend=pt_, n_offsets=no, mut=[], accept=False, offsets_as="number"))
+        cases.append(dict(kind="prior", poly_trend=pt_, n_offsets=no, mut=[], accept=False, model_as="string"))
+        # every single mutilation again with the parameters handed over as a list / taken from the model
+        for m in single_mutilations(pt_, no):
+            for pars_as in ("list", "model"):
+                cases.append(dict(kind="prior", poly_trend=pt_, n_offsets=no, mut=[m], accept=False, pars_as=pars_as))
         bad = single_mutilations(pt_, no)
         good = valid_variations(pt_, no)
         if no:
